@@ -29,6 +29,7 @@
    witness now evaluates to the demanded stream, C15_example_type_use / _int_hidden / _trailing). *)
 From Coq Require Import Sorting.Sorted.
 From Spl Require Import Model.SemTok Proofs.SemTokProofs Proofs.ParserTotal.
+From Spl Require Import Proofs.GrammarProofs Spec.Typing Proofs.TypingProofs Proofs.HoverProofs Proofs.SemTokValid.
 
 Theorem C15_no_panic : forall d, doc_wf_b d = true -> exists data, semantic_tokens d = SOk data.
 Proof. exact semtok_no_panic. Qed.
@@ -111,6 +112,37 @@ Theorem C15_lexical_reported_everywhere : forall t d data,
                 In (tok_view (d_text d) (k, c)) (decode data).
 Proof. exact new_doc_complete. Qed.
 Print Assumptions C15_lexical_reported_everywhere.
+
+(* ---- the binding half, PROVED for every valid program in every layout ----
+   p ranges over the abstract programs of the grammar, G over the global tables the declarative static
+   semantics accepts for the mandated tree, t over the texts that lex to p's token kinds (all layouts of
+   p): the formulation of C03_no_false_positive, C14_hover_valid and C17_valid.  For every identifier
+   occurrence of the tree with its syntactic role ([program_roles]: owner declaration, token number k,
+   spelling x, scope sc, dcl = "this occurrence declares the name") the decoded answer contains the token
+   with the kind of the entry the occurrence is BOUND to under SPL scoping ([binding], the one of
+   C14_hover_valid: type / function / parameter / variable) and the declaration modifier set exactly
+   when dcl holds, and nothing else is reported at that position.  Together with C15_coincide /
+   C15_increasing / C15_lexical_class / C15_lexical_reported_everywhere (which hold for the document
+   of a valid program without further hypothesis: C15_valid_doc_wf) this pins the whole answer. *)
+Theorem C15_valid_doc_wf : forall (p : aprog) (G : gtable) (t : text) (toks : list token) (d : doc),
+  prog_ok p = true -> well_typed (expected p) G -> lex t = Some toks -> map tk toks = flatten p ++ [Eof] ->
+  new_doc_res t = ODone d ->
+  decls_names_b (d_toks d) (pg_decls (d_ast d)) = true /\ doc_wf_b d = true.
+Proof. exact valid_doc_wf. Qed.
+Print Assumptions C15_valid_doc_wf.
+
+Theorem C15_valid : forall (p : aprog) (G : gtable) (t : text) (toks : list token) (d : doc),
+  prog_ok p = true -> well_typed (expected p) G ->
+  lex t = Some toks -> map tk toks = flatten p ++ [Eof] ->
+  new_doc_res t = ODone d ->
+  exists data, semantic_tokens d = SOk data /\
+    forall owner k x sc dcl, In (owner, ((k, x, sc), dcl)) (program_roles (expected p)) ->
+    forall tok, nth_error toks k = Some tok ->
+    exists e, binding d owner sc x = Some e /\
+      let a := tok_view t (tok, (kind_of e, mod_of dcl)) in
+      In a (decode data) /\ forall b, In b (decode data) -> at_pos b = at_pos a -> b = a.
+Proof. exact semtok_valid. Qed.
+Print Assumptions C15_valid.
 
 (* ---- the classification part ---- *)
 (* In a document without diagnostics the answer reports (a) every keyword / number / comment of the
